@@ -302,6 +302,12 @@ impl OsIpcSender {
             fds.push(shared_memory_region.store.fd());
         }
 
+        // The receiver's control buffer has room for MAX_FDS_IN_CMSG descriptors;
+        // the kernel silently drops any excess on receipt, so refuse such messages here.
+        if fds.len() > MAX_FDS_IN_CMSG as usize {
+            return Err(UnixError::Errno(libc::EMSGSIZE));
+        }
+
         // `len` is the total length of the message.
         // Its value will be sent as a message header before the payload data.
         //
@@ -432,6 +438,10 @@ impl OsIpcSender {
         //
         // The receiver end of the channel is sent with the first fragment
         // along any other file descriptors that are to be transferred in the message.
+        if fds.len() + 1 > MAX_FDS_IN_CMSG as usize {
+            // No room left for the dedicated receiver.
+            return Err(UnixError::Errno(libc::EMSGSIZE));
+        }
         let (dedicated_tx, dedicated_rx) = channel()?;
         // Extract FD handle without consuming the Receiver, so the FD doesn't get closed.
         fds.push(dedicated_rx.fd.get());
